@@ -15,8 +15,7 @@ const ID: &str = "C10";
 pub fn argument_values(tier: Tier) -> Vec<RV> {
     let pool = pool();
     let small = match tier {
-        Tier::Quick => small_pool(),
-        Tier::Thorough => {
+        Tier::Quick => {
             // small pool plus every third value of the full pool
             let mut s = small_pool();
             for (i, v) in pool.iter().enumerate() {
@@ -26,6 +25,8 @@ pub fn argument_values(tier: Tier) -> Vec<RV> {
             }
             s
         },
+        // the complete pool^3
+        Tier::Thorough => pool.clone(),
     };
     let mut out = vec![RV::Empty];
     out.extend(pool.iter().cloned());
